@@ -549,6 +549,7 @@ class Model:
         r.built = True
         r.built_run = self.run
         r.user_removed = False
+        meta0 = r.meta_changed
         r.meta_changed = False
         r.static = False
         depfail = who is None
@@ -596,7 +597,7 @@ class Model:
                 r.watch_absent = None
         if depfail or p.fails(n) or p.hfails(n):
             r.failed = True
-            if not depfail and t.get('scribble') and r.exists and not r.phony:
+            if ((not depfail and t.get('scribble')) or meta0) and r.exists and not r.phony:
                 # the failing script appended to the existing target file directly: redo records the new state of the file with the
                 # failure, and a file of a target that changed is a changed target (also for a checksummed one whose next successful
                 # build arrives at the old checksum again: its dependents never saw the mess, but they are rebuilt)
